@@ -258,6 +258,54 @@ def rule_insert(ctx, rep):
                     r.finding(inst, loc_str(b.f, c.loc), "result of insert ignored: a second declaration with the same name silently replaces the first")
 
 
+def rule_dupreport(ctx, rep, rid="R-C03-dupreport"):
+    """Where a duplicate name is detected by a look-up before the insert (`if let Some(first) = map.get_key_value(&name) { return Err(..) }`),
+    the branch on which the name is already present must end in an error on every path.  An `Ok` on that branch ("it is the same
+    declaration anyway") silently drops a declaration - which one depends on the order of the files."""
+    from vlib.mir import switch_info
+    r = rep.rule(rid, "when a declaration map already holds the name, every path of that branch returns an error (no silent `Ok` for a name that is present)",
+                 floor=1, floor_what="look-up guarded declaration inserts")
+    n = 0
+    for b in sorted(ctx.prog.bodies.values(), key=lambda x: x.id):
+        if b.f["crate"] != "ironplc_analyzer" or "::test" in norm(b.id):
+            continue
+        for c in sorted(b.calls(), key=lambda c: (c.loc[0], c.loc[1])):
+            if not (c.callee and c.callee.endswith(("HashMap::insert", "BTreeMap::insert"))):
+                continue
+            ga = split_top((c.ga or "[]").strip("[]"))
+            if len(ga) < 2 or ga[0].strip().lstrip("&'{erased} ") not in ("ironplc_dsl::core::Id", "ironplc_dsl::common::Type"):
+                continue
+            if not str(b.local_ty(0)).startswith("core::result::Result"):
+                continue
+            mp = b.root(op_place(c.args[0])) if op_place(c.args[0]) else None
+            for d in sorted(b.dominators().get(c.bb, set())):
+                si = switch_info(b, d)
+                if not si or si["kind"] != "disc" or si["subject"][0] != "call":
+                    continue
+                lc = si["subject"][1]
+                if not (lc.callee or "").endswith(("Map::get", "Map::get_key_value", "Map::get_mut")):
+                    continue
+                if mp is not None and op_place(lc.args[0]) is not None and b.root(op_place(lc.args[0]))[0] != mp[0]:
+                    continue
+                some_t = [s_ for s_, l in si["edges"].items() if l == ["Some"]]
+                none_t = [s_ for s_, l in si["edges"].items() if l == ["None"]]
+                if not some_t or not none_t or c.bb in b.reachable(some_t[0], avoid=set(none_t)):
+                    continue
+                n += 1
+                inst = "%s|name present" % norm(b.id).split("::")[-1]
+                region = b.reachable(some_t[0], avoid=set(none_t))
+                oks = [i for i, j, st in b.all_stmts() if i in region and st[0] == "=" and st[1] == [0, []] and st[2][0] == "agg" and st[2][1].get("adt") == "core::result::Result" and st[2][1]["variant"] == "Ok"]
+                errs = [i for i, j, st in b.all_stmts() if i in region and st[0] == "=" and st[1] == [0, []] and st[2][0] == "agg" and st[2][1].get("adt") == "core::result::Result" and st[2][1]["variant"] == "Err"]
+                if oks:
+                    r.finding(inst + "|ok-on-duplicate", loc_str(b.f, c.loc), "on the branch where the name is already in the map a path returns Ok: the second declaration is dropped without "
+                              "P0019, and which of the two survives depends on the order in which the files are read")
+                elif not errs:
+                    r.finding(inst + "|no-error", loc_str(b.f, c.loc), "the branch where the name is already present constructs no error")
+                else:
+                    r.ok(inst, loc_str(b.f, c.loc), "every path of the Some branch returns Err")
+                break
+
+
 def downstream_of_duplicate_detection(ctx, what):
     """the SymbolTable<Type, TypeDefinitionKind> visitor of xform_resolve_late_bound_type_initializer calls add_if_new for this kind"""
     want = {"FunctionBlockDeclaration": "visit_function_block_declaration", "EnumerationDeclaration": "visit_data_type_declaration_kind"}.get(what)
@@ -561,6 +609,7 @@ def run(ctx, rep):
     from rules.c11 import rule_cache
     rule_cache(ctx, rep, rid="R-C03-cache")
     rule_firstend(ctx, rep)
+    rule_dupreport(ctx, rep)
     # an error in a use that names its enumeration must not be cured by an unrelated enumeration
     from rules.c02_enum import run_exact
     run_exact(ctx, rep, rid="R-C03-enumexact")
